@@ -728,7 +728,7 @@ class BacktrackingOr(ValuePattern):
             [v.clone(node_map) for v in self._values],
             self.name,
             self._tag_var,
-            self._tag_values,
+            self._tag_values if self._tag_var is not None else None,
         )
 
 
